@@ -352,7 +352,13 @@ def check_support_batch(ctx, recs, eos, V, T, D, batched):
     groups = [recs] if batched else [[r] for r in recs]
     for grp in groups:
         Nb = len(grp)
-        lm = _sp.make_lm([r["tab"] for r in grp], V)
+        if batched:
+            lm = _sp.make_lm([r["tab"] for r in grp], V)
+        else:
+            # unbatched: the model conditions on the initial state too -- element 1 selects the record's table,
+            # element 0 (what a dropped initial state falls back to) is a decoy table
+            decoy = recs[(recs.index(grp[0]) + 1) % len(recs)]["tab"]
+            lm = _sp.make_lm([decoy, grp[0]["tab"]], V)
         walk = RandomWalk(lm, ieos)
         site = "SequentialLanguageModelDistribution"
 
@@ -364,7 +370,7 @@ def check_support_batch(ctx, recs, eos, V, T, D, batched):
             if batched:
                 dist = SLMD(walk, Nb, {"elem": torch.arange(Nb)}, T, validate_args=True)
             else:
-                dist = SLMD(walk, None, None, T, validate_args=True)
+                dist = SLMD(walk, None, {"elem": torch.ones(1, dtype=torch.long)}, T, validate_args=True)
             sup = _sp.quiet(dist.enumerate_support)
             lp = _sp.quiet(dist.log_prob, sup)
         except Exception as ex:
@@ -532,8 +538,9 @@ def record_walks(ctx, book, cfg, seed_base, n_rounds, exc_seen):
                         continue
                     va = rng.random() < 0.5
                     sinfo = dict(info, batch_shape=bshape, sample_shape=sshape, cache_samples=cache, validate_args=va)
-                    st = dict(init) if bshape else None
-                    ids_b = ids if bshape else ids[:1]
+                    ub = N - 1  # the unbatched wrapper conditions on the LAST table through its initial state
+                    st = dict(init) if bshape else {"elem": torch.full((1,), ub, dtype=torch.long)}
+                    ids_b = ids if bshape else ids[ub:ub + 1]
                     Nb = bshape or 1
 
                     def make(v, c=False):
@@ -570,7 +577,7 @@ def record_walks(ctx, book, cfg, seed_base, n_rounds, exc_seen):
                     if bshape:
                         walks = smp.reshape(M, Nb, S2)  # m-th walk: (N, S)
                     else:
-                        walks = smp.reshape(1, M, S2)  # a single walk with batch M, all on table 0
+                        walks = smp.reshape(1, M, S2)  # a single walk with batch M, all on the table selected by the initial state
                     for m in range(walks.size(0)):
                         ym = walks[m].t().contiguous()  # (S, n_elems)
                         ne = ym.size(1)
@@ -580,7 +587,7 @@ def record_walks(ctx, book, cfg, seed_base, n_rounds, exc_seen):
                             for n in range(ne):
                                 nums2[n].append(_sp.to_num(lpm[m, n], D ** plens[n]))
                         el_ids = ids_b if bshape else ids_b * ne
-                        el_init = {"elem": torch.arange(ne)} if bshape else {"elem": torch.zeros(ne, dtype=torch.long)}
+                        el_init = {"elem": torch.arange(ne)} if bshape else {"elem": torch.full((ne,), ub, dtype=torch.long)}
                         try:
                             dn = _def_nums(lm, el_init, ym, ieos, D, plens)
                             for n in range(ne):
